@@ -218,6 +218,42 @@ def coq_text(f):
     return _TEMPLATE % tuple(vals)
 
 
+def lex_facts(repo):
+    """names called (functions, methods) in the body of Environment.lex, for the C39 obligation"""
+    src = os.path.join(repo, "src", "jinja2")
+    env = ast.parse(open(os.path.join(src, "environment.py")).read())
+    fn = _func(env, "lex", "Environment")
+    calls = []
+    for n in ast.walk(fn):
+        if isinstance(n, ast.Call):
+            f = n.func
+            nm = f.attr if isinstance(f, ast.Attribute) else (f.id if isinstance(f, ast.Name) else None)
+            if nm is None:
+                raise TranslateError("Environment.lex: unrecognised call shape")
+            if nm not in calls:
+                calls.append(nm)
+    return {"lex_calls": calls}
+
+
+_LEX_TEMPLATE = """(* generated by gen/lex_envfacts.py from src/jinja2/environment.py -- do not edit *)
+From Coq Require Import List String Bool.
+Import ListNotations.
+Open Scope string_scope.
+
+Definition lex_calls : list string := %s.
+Definition mem (x : string) (l : list string) : bool := existsb (String.eqb x) l.
+
+(* Environment.lex hands the given source to the lexer's tokeniter and runs no preprocessing hook
+   (documented: "This does not perform preprocessing") *)
+Lemma lex_is_raw : mem "tokeniter" lex_calls = true /\\ mem "preprocess" lex_calls = false /\\ mem "_tokenize" lex_calls = false /\\ mem "_parse" lex_calls = false.
+Proof. vm_compute. repeat split; reflexivity. Qed.
+"""
+
+
+def coq_text_lex(f):
+    return _LEX_TEMPLATE % coq_list(f["lex_calls"])
+
+
 if __name__ == "__main__":
     import sys
     print(coq_text(facts(sys.argv[1] if len(sys.argv) > 1 else "/repo")))
